@@ -377,6 +377,19 @@ def mission(o, d):
                    arrival=iso_to_timestamp('2024-09-01 18:00:00'), load_factor=1.0)
 
 
+def mission_from_query(o, d, stated_km):
+    """the same mission built the way mission-database queries build it (Mission.from_query_result); the record's
+    stated distance (whole km, as schedules state it) must not influence the great-circle distance"""
+    from AEIC.missions import Mission
+    from AEIC.missions.mission import iso_to_timestamp
+    from AEIC.missions.query import QueryResult
+    qr = QueryResult(departure=iso_to_timestamp('2024-09-01 12:00:00'), arrival=iso_to_timestamp('2024-09-01 18:00:00'),
+                     carrier='XX', flight_number='1', origin=o, origin_country='US', destination=d,
+                     destination_country='US', service_type='J', aircraft_type='738', engine_type=None,
+                     distance=int(stated_km), seat_capacity=150, id=1, flight_id=1)
+    return Mission.from_query_result(qr)
+
+
 def check_tracks(chk: Check, tracks):
     """tracks: list of dict(track, queries or None -> generated from the implementation's index)"""
     geod = fresh_geod()
@@ -546,9 +559,15 @@ def check_missions(chk: Check, variant, pairs):
     impl = []
     try:
         from AEIC.trajectories.ground_track import GroundTrack
-        for kind, ca, cb, a, b in cases:
+        for n_, (kind, ca, cb, a, b) in enumerate(cases):
             try:
-                m, mr = mission(ca, cb), mission(cb, ca)
+                if n_ % 2 == 1:
+                    # built from a schedule record whose stated distances differ from the geodesic and between directions
+                    km = dist(geod, a, b) / 1000.0
+                    m = mission_from_query(ca, cb, km * chk.rng.uniform(0.96, 1.04) + 2.0)
+                    mr = mission_from_query(cb, ca, km * chk.rng.uniform(0.96, 1.04) - 3.0 if km > 10 else km + 5.0)
+                else:
+                    m, mr = mission(ca, cb), mission(cb, ca)
                 gt = GroundTrack.great_circle(m.origin_position.location, m.destination_position.location)
                 impl.append(['ok', float(m.gc_distance), float(mr.gc_distance), float(gt.total_distance),
                              [m.origin_position.longitude, m.origin_position.latitude,
@@ -562,10 +581,12 @@ def check_missions(chk: Check, variant, pairs):
     exprs = [f'@gc_distance FNum {b_} {coq_float(a[0])} {coq_float(a[1])} {coq_float(b[0])} {coq_float(b[1])}'
              for _, _, _, a, b in cases]
     vals = chk.coq_eval(HEADER, exprs, label='missions')
-    for (kind, ca, cb, a, b), io, v in zip(cases, impl, vals):
-        case = {'mission': {'kind': kind, 'origin': a, 'destination': b}}
+    for n_, ((kind, ca, cb, a, b), io, v) in enumerate(zip(cases, impl, vals)):
+        case = {'mission': {'kind': kind, 'origin': a, 'destination': b,
+                            'built': 'from_query_result' if n_ % 2 == 1 else 'constructor'}}
         chk.case(case, True)
         chk.count('mission:' + kind)
+        chk.count('mission-built:' + case['mission']['built'])
         if io[0] == 'error':
             chk.fail(f'Mission.gc_distance raised {io[1]}: {io[2]}', dict(case, impl=io), signature=None)
             continue
@@ -688,6 +709,7 @@ def replay(chk: Check, rp):
             teardown_config()
     elif 'mission' in case:
         m = case['mission']
-        check_missions(chk, variant, [(m.get('kind', 'replay'), m['origin'], m['destination'])])
+        pair = (m.get('kind', 'replay'), m['origin'], m['destination'])
+        check_missions(chk, variant, [pair, pair])       # once per way of building the mission
     else:
         chk.broken('replay', 'replay file carries no case (broken obligation: re-run the check)')
